@@ -87,6 +87,16 @@ namespace glm
 		detail::float_t<float> const a(x);
 		detail::float_t<float> const b(y);
 
+		if(a.negative() != b.negative())
+		{
+			// Values on both sides of zero (+0 == -0): the bit patterns are sign-magnitude, so the
+			// distance is the sum of the distances to zero, saturated to the result type.
+			int const Max = std::numeric_limits<int>::max();
+			int const DistA = a.i & Max;
+			int const DistB = b.i & Max;
+			return DistA > Max - DistB ? Max : DistA + DistB;
+		}
+
 		return abs(a.i - b.i);
 	}
 
@@ -94,6 +104,16 @@ namespace glm
 	{
 		detail::float_t<double> const a(x);
 		detail::float_t<double> const b(y);
+
+		if(a.negative() != b.negative())
+		{
+			// Values on both sides of zero (+0 == -0): the bit patterns are sign-magnitude, so the
+			// distance is the sum of the distances to zero, saturated to the result type.
+			int64 const Max = std::numeric_limits<int64>::max();
+			int64 const DistA = a.i & Max;
+			int64 const DistB = b.i & Max;
+			return DistA > Max - DistB ? Max : DistA + DistB;
+		}
 
 		return abs(a.i - b.i);
 	}
